@@ -29,9 +29,15 @@ def scripts(yields, max_len, spawn):
 def drivers(tier):
     if tier == 'quick':
         fam = scripts((None, 0, -1, 1, 2), 3, spawn=((), (1,)))
+        lean = [script_from_yields(seq) for seq in
+                ((), (0.5,), (1,), (2,), (1, None), (None, 2))]
         return {'timing': (CoroDriver('timing', fam, dts=(0, 1, 2),
                                       max_started=2),
-                           dict(max_states=400000, time_budget=300))}
+                           dict(max_states=400000, time_budget=300)),
+                # three overlapping waits requested in any order
+                'timing-3-lean': (CoroDriver('timing-3-lean', lean,
+                                             dts=(0.5, 1), max_started=3),
+                                  dict(max_states=400000, time_budget=300))}
     fam = scripts((None, 0, -1, 0.5, 1, 2), 3, spawn=((), (1,), (None, 2)))
     fam3 = scripts((None, -1, 0.5, 1, 2), 2, spawn=((1,),))
     return {
